@@ -667,16 +667,16 @@ inline bytes world::make_connect_request( const sim::Op& op, const bytes& adv, b
     // a: 0 kind, 1 initiator id, 2 interval (1.25 ms), 3 latency, 4 timeout (10 ms), 5 window size, 6 window offset, 7 hop, 8 channel map seed, 9 sca, 10 jitter permille of the window, 11 md burst
     const int kind = static_cast< int >( ( ( op.arg( 0 ) % 10 ) + 10 ) % 10 );
     const unsigned who = static_cast< unsigned >( ( ( op.arg( 1 ) % 12 ) + 12 ) % 12 );
-    std::uint32_t interval = static_cast< std::uint32_t >( 6 + ( ( op.arg( 2 ) % 400 ) + 400 ) % 400 );
+    std::uint32_t interval = static_cast< std::uint32_t >( 6 + ( ( op.arg( 2 ) % 3195 ) + 3195 ) % 3195 );      // 7.5 ms .. 4 s, the range of the specification
     std::uint32_t latency = static_cast< std::uint32_t >( ( ( op.arg( 3 ) % 500 ) + 500 ) % 500 );      // 0..499, the range of the specification
     // ... as far as the largest supervision timeout (32 s) permits with this interval: timeout > (1 + latency) * interval * 2
     { const std::uint32_t lmax = 31900000u / ( interval * 1250u * 2u ); if ( latency + 1 > lmax ) latency = lmax ? lmax - 1 : 0; }
     std::uint32_t winsize = static_cast< std::uint32_t >( 1 + ( ( op.arg( 5 ) % 8 ) + 8 ) % 8 );
     if ( winsize > interval - 1 ) winsize = interval - 1;
     if ( winsize > 8 ) winsize = 8;
-    std::uint32_t winoffset = static_cast< std::uint32_t >( ( ( op.arg( 6 ) % 8 ) + 8 ) % 8 );
+    std::uint32_t winoffset = static_cast< std::uint32_t >( ( ( op.arg( 6 ) % 3201 ) + 3201 ) % 3201 );     // 0 .. interval
     if ( winoffset > interval ) winoffset = interval;
-    std::uint32_t timeout = static_cast< std::uint32_t >( 10 + ( ( op.arg( 4 ) % 600 ) + 600 ) % 600 );
+    std::uint32_t timeout = static_cast< std::uint32_t >( 10 + ( ( op.arg( 4 ) % 3191 ) + 3191 ) % 3191 );     // 100 ms .. 32 s
     const std::uint32_t min_timeout = ( ( 1 + latency ) * interval * 1250 * 2 + 9999 ) / 10000 + 1;
     if ( timeout < min_timeout ) timeout = min_timeout;
     if ( timeout > 3200 ) timeout = 3200;
@@ -1107,7 +1107,11 @@ inline void world::connection_event_activity()
                         {
                             tx_starved_since_update_ = false;
                             const std::uint64_t instant = upd_instant_;
-                            const bool passed = instant <= c_.abs_counter;
+                            // (the peripheral sees 16 bits: an instant more than 32767 events in the past looks like one in the future - with a latency of
+                            // several hundred events a PDU can wait that long in the central's queue; nothing can be judged after that)
+                            const bool aliased = instant <= c_.abs_counter && static_cast< std::uint16_t >( instant - c_.abs_counter ) != 0 && static_cast< std::uint16_t >( instant - c_.abs_counter ) < 32767;
+                            if ( aliased ) { c_.sync_excused = true; control_checks_excused_ = true; res_.probe( "instant_aliased_into_the_future" ); }
+                            const bool passed = instant <= c_.abs_counter && !aliased;
                             // a connection update for the very next event: the peripheral may still apply it (the transmit window starts after this event) or give up
                             // (the next event may already be scheduled) - applying is judged by the window rules, giving up must be Instant Passed
                             const bool borderline = upd_kind_ == 0 && instant == c_.abs_counter + 1;
